@@ -1008,10 +1008,20 @@ func (f *frame) loopFormFallback(at *ssa.BasicBlock, name string) (Val, bool) {
 	if ri == nil {
 		return nil, false
 	}
+	declared := false
+	for _, p := range f.fn.Params {
+		if p.Name() == name {
+			declared = true
+		}
+	}
 	for _, b := range f.fn.Blocks {
 		for _, ins := range b.Instrs {
 			dr, ok := ins.(*ssa.DebugRef)
-			if !ok || dr.IsAddr || dr.Object() == nil || dr.Object().Name() != name {
+			if !ok || dr.Object() == nil || dr.Object().Name() != name {
+				continue
+			}
+			declared = true
+			if dr.IsAddr {
 				continue
 			}
 			if bo, ok := dr.X.(*ssa.BinOp); ok && bo.Op == token.ADD && bo.X == ssa.Value(ri) && isOne(bo.Y) {
@@ -1020,6 +1030,13 @@ func (f *frame) loopFormFallback(at *ssa.BasicBlock, name string) (Val, bool) {
 					return add(v, Term{"1", sInt}), true
 				}
 			}
+		}
+	}
+	if !declared {
+		// the index variable is gone altogether (`for _, x := range s`): the name can only have meant the loop counter
+		if v, ok := f.vals[ri].(Term); ok && v.T.K == KInt {
+			f.u.note("invariant of " + f.key + ": " + name + " (no longer declared) re-attached to rangeindex + 1 (loop form changed)")
+			return add(v, Term{"1", sInt}), true
 		}
 	}
 	return nil, false
